@@ -628,7 +628,10 @@ def h_stack(ctx, stack, n, repack=True):
   b = B(ctx); b.extra = n; b.extra_used = False
   layers = STACKS[stack](b)
   if b.extra_used or stack in NO_PAYLOAD: n = 0      # the innermost header carries no payload (n was used for its own variable part, if any)
-  pay = ctx.bytes('pay', n)
+  if n > 16:       # MTU-sized payloads: 4 leading and 4 trailing bytes symbolic, the rest a fixed pattern
+    pay = env.tobytes(ctx, list(ctx.bytes('payhead', 4)) + [(k * 37 + 11) & 0xff for k in range(n - 8)] + list(ctx.bytes('paytail', 4)))
+  else:
+    pay = ctx.bytes('pay', n)
   if stack == 'ip_frag': ctx.assume(layers[1].obj.frag != 0)
   if stack in ('mpls', 'mpls2') and n >= 4: pass
   tag = '[%s] ' % stack
@@ -656,6 +659,10 @@ def obligations(tier):
       if st in NO_PAYLOAD and n: continue
       if st.startswith('gre_csum'): sc.append(dict(stack=st, n=n, repack=False))
       else: sc.append(dict(stack=st, n=n))
+  if tier != 'quick':
+    # frames at the Ethernet MTU (IP datagram of 1499 / 1500 bytes)
+    for st, hdrs in (('udp', 28), ('tcp', 40), ('tcp_mss_ws', 48), ('icmp_echo', 28), ('udp6', 48), ('udp_opt', 32), ('ip_other', 24)):
+      for total in (1499, 1500): sc.append(dict(stack=st, n=total - hdrs))
   BOUNDS[tier]['stacks'] = sorted(STACKS); BOUNDS[tier]['payload_lengths'] = sorted({c['n'] for c in sc})
   return [Obligation('O1_checksum', h_checksum, cases, witnesses=('returned',), mode='int', solver_timeout_ms=300000 if tier == 'quick' else 900000, path_seconds=1800,
                      desc='packet_utils.checksum == RFC 1071 reference for all buffers up to the bound (odd and even)'),
